@@ -8,7 +8,7 @@ import tempfile
 
 from . import ical
 
-BUILD = '/verif/build'
+BUILD = os.environ.get('VERIF_BUILD', '/verif/build')
 SHM = '/dev/shm' if os.path.isdir('/dev/shm') and os.access('/dev/shm', os.W_OK) else tempfile.gettempdir()
 VQ_CACHE = {}
 
@@ -182,6 +182,9 @@ def lower(plan, rundir):
                 ops.append((t, 'stall %s' % op['s']))
             elif k == 'mark':
                 ops.append((t, 'mark %d' % op.get('id', 0)))
+            elif k == 'clockstep':
+                # ('any': even while an expiry is outstanding; the default waits for a quiet moment)
+                ops.append((t, 'clockstep %d%s' % (int(round(op['dt'] * 1000)), ' any' if op.get('any') else '')))
         # stable sort by time keeps per-connection order
         for i, (t, s) in sorted(enumerate(ops), key=lambda x: (x[1][0], x[0])):
             L.append('op %.6f %s' % (t, s))
